@@ -159,8 +159,8 @@ def patchFvHeader (buf : Bytes) (length : Nat) (guid : Option Guid) (count : Nat
     | none => b
   let b := splice b 56 (leN 4 count)
   let b := splice b 50 [0, 0]
-  -- (Q) `fBuf[:f.HeaderLen]` : beyond the buffer Go faults (or reads spare capacity)
-  if headerLen > b.length then .error .panic
+  -- repaired (fix 233c228): a header length beyond the buffer is an error, not `fBuf[:f.HeaderLen]` past it
+  if headerLen > b.length then .error .err
   else if headerLen % 2 ≠ 0 then .error .err
   else .ok (splice b 50 (leN 2 ((0 - sum16 (b.take headerLen)).toNat)))
 
